@@ -215,6 +215,10 @@ def check(case):
             add_molecule(mol, parsed[k:k + len(base_recs)], tg)
             k += len(base_recs)
         sysctx = (syst, parsed, len(base_recs), tg)
+        # ... and the first residue of the file as SystemGro hands it out (plain non-negative index)
+        nfirst = len(spec["residues"][0][2])
+        pool.append(Entry(lib("systemgro-index", syst.system_gro.__getitem__, 0), "res",
+                          [model.new_cell(r) for r in parsed[:nfirst]]))
     else:
         tg = new_top()
         given = build_molecule(spec)
@@ -312,6 +316,12 @@ def check(case):
                 # the System is asked again for an instance it handed out before (by either index): what comes back is
                 # the file's molecule, whatever was done to the one handed out earlier
                 syst_, parsed_, nrec_, tg_ = sysctx
+                if b % 3 == 0:
+                    nfirst = len(spec["residues"][0][2])
+                    pool.append(Entry(lib("systemgro-index", syst_.system_gro.__getitem__, 0), "res",
+                                      [model.new_cell(r) for r in parsed_[:nfirst]]))
+                    compare(model, pool, step, kind)
+                    continue
                 inst = a % case["ninst"]
                 idx = inst - case["ninst"] if flag else inst
                 again = lib("system-index", syst_.__getitem__, idx)
